@@ -411,24 +411,24 @@ type nmTx struct {
 }
 
 type nmEngine struct {
-	r        *Run
-	w        *World
-	m        *nmModel
-	nm       util.Uint160
-	nmID     int32
-	bal      *Deployed
-	probes   []*Deployed
-	nodes    []*keys.PrivateKey
-	garbage  []byte
-	stranger *keys.PrivateKey
-	seq      int
-	proj     int64 // epoch the pending transactions are expected to reach (generation only)
-	noFaults bool
-	allowBad bool
-	resizes  int // resize transactions built so far
-	pending  []*nmTx
-	bigJumps bool // epoch jumps land right below 2^31
-	c08Drift bool // C08: a published map was taken from observation
+	r            *Run
+	w            *World
+	m            *nmModel
+	nm           util.Uint160
+	nmID         int32
+	bal          *Deployed
+	probes       []*Deployed
+	nodes        []*keys.PrivateKey
+	garbage      []byte
+	stranger     *keys.PrivateKey
+	seq          int
+	proj         int64 // epoch the pending transactions are expected to reach (generation only)
+	noFaults     bool
+	allowBad     bool
+	resizes      int // resize transactions built so far
+	pending      []*nmTx
+	bigJumps     bool       // epoch jumps land right below 2^31
+	c08Drift     bool       // C08: a published map was taken from observation
 	obsSeq       int        // observation slots handed out so far
 	blkTickSlots [][2]int64 // (epoch, slot) of the ticks that took effect in the block just executed
 }
